@@ -26,7 +26,7 @@ def sh(cmd, **kw):
 def main():
     pid, k, sid, needs = sys.argv[1:5]
     checks = sys.argv[5:] or [pid]
-    inc = os.path.join(VERIF, "seeded", "_incoming", pid)
+    inc = os.environ.get("SEED_INCOMING") or os.path.join(VERIF, "seeded", "_incoming", pid)
     diff = os.path.join(inc, f"seed_{pid}_{k}.diff")
     demo = os.path.join(inc, f"demo_{pid}_{k}.py")
     wt = f"/tmp/cs_{sid}"
